@@ -9,7 +9,7 @@ use std::time::Instant;
 use crate::{
     VResult, Viol, hash128,
     json::J,
-    ops::{Op, fmt_hist},
+    ops::{K, Op, fmt_hist},
     scopes::{Probes, Scope, owned_by},
     talloc,
     wmon::is_nofire,
@@ -487,6 +487,26 @@ fn expand<S: Sys>(sc: &Scope, prop: &str, probes: &Probes, table: &[Entry], inde
                 so.cov.merge(&cov);
                 if !index.contains_key(&h) {
                     so.succ.push((op, h));
+                } else if matches!(op.k, K::Fault | K::PLink | K::PGarbage | K::PNewRoot | K::PFin | K::PDropH) && probes.any() {
+                    // A transition that ends in a caught panic and lands on a state that is already known: whatever the
+                    // unwinding left behind inside the library that the canonical form does not show (a flag not reset,
+                    // a guard not run) would be merged away. The per-state probes are therefore run on THIS history too.
+                    let n = execute::<S, usize>(sc, &h2, false, |s| {
+                        let n = s.probe_count(probes);
+                        s.finish()?;
+                        Ok(n)
+                    })
+                    .unwrap_or(0);
+                    for i in 0..n {
+                        so.executions += 1;
+                        so.probe_runs += 1;
+                        CUR_PROBE.with(|p| p.set(Some(i)));
+                        let r = execute::<S, ()>(sc, &h2, false, |s| s.probe(probes, i));
+                        CUR_PROBE.with(|p| p.set(None));
+                        if let Err(v) = r {
+                            note(&mut so, h2.clone(), v, Some(i));
+                        }
+                    }
                 }
             }
             Err(v) if is_nofire(&v) => {}
